@@ -74,6 +74,7 @@ class Obj:
 
     def __init__(self, cls: ClassInfo):
         self.cls, self.f, self.oid = cls, {}, next(Obj._ids)
+        self.fields_set = set()        # pydantic: the fields given explicitly (constructor keywords, later assignments)
 
     def __repr__(self):
         return f"<{self.cls.name}#{self.oid}>"
@@ -301,6 +302,7 @@ class Interp:
                     for fn_ in names:
                         if fn_ in kwargs:
                             kwargs[fn_] = self.call_fn(f, [cls, kwargs[fn_]], {})
+        o.fields_set = {k for k in o.f} | {k for k in kwargs if k in fields and not k.startswith("_")}
         for fname, (ann, dflt, owner) in fields.items():
             private = fname.startswith("_")
             if fname in kwargs and not private:
@@ -415,6 +417,7 @@ class Interp:
         n = Obj(o.cls)
         n.f = dict(o.f)
         n.f.update(update or {})
+        n.fields_set = set(o.fields_set) | set(update or {})
         return n
 
     def deepcopy(self, v, memo=None):
@@ -425,6 +428,7 @@ class Interp:
             n = Obj(v.cls)
             memo[id(v)] = n
             n.f = {k: self.deepcopy(x, memo) for k, x in v.f.items()}
+            n.fields_set = set(v.fields_set)
             return n
         if isinstance(v, ItemList):
             n = ItemList(self.deepcopy(x, memo) for x in v)
@@ -611,7 +615,9 @@ class Interp:
                 if name == "model_fields":
                     return {k: None for k in self.p.model_fields(v.cls) if not k.startswith("_")}
                 if name == "model_dump":
-                    return lambda: {k: self._dump(x) for k, x in v.f.items() if not k.startswith("_")}
+                    return lambda **kw: self._dump(v, top=True, **kw)
+                if name == "model_fields_set":
+                    return set(v.fields_set)
             raise PyRaise("AttributeError", node, f"'{v.cls.name}' object has no attribute '{name}'")
         if isinstance(v, ClassInfo):
             r = self.p.find_attr(v, name)
@@ -738,11 +744,29 @@ class Interp:
             raise AnalysisAbort(f"attribute {name} of {v!r} is not modelled")
         raise AnalysisAbort(f"attribute {name} on {type(v).__name__} is not modelled (line {getattr(node, 'lineno', '?')})")
 
-    def _dump(self, x):
+    def _dump(self, x, top=False, include=None, exclude=None, exclude_unset=False, exclude_none=False, **other):
+        """BaseModel.model_dump: the fields as a dict, nested models dumped too; include / exclude (sets of names, top level),
+        exclude_unset (only the fields given explicitly), exclude_none"""
+        if other:
+            raise AnalysisAbort(f"model_dump keyword(s) {sorted(other)} are not modelled")
+        for sel in (include, exclude):
+            if sel is not None and not (isinstance(sel, (set, frozenset, list, tuple, KeyList)) and all(isinstance(k, str) for k in sel)):
+                raise AnalysisAbort("model_dump(include= / exclude=) other than a flat collection of field names")
         if isinstance(x, Obj):
-            return {k: self._dump(y) for k, y in x.f.items() if not k.startswith("_")}
+            out = {}
+            for k, y in x.f.items():
+                if k.startswith("_"):
+                    continue
+                if top and ((include is not None and k not in include) or (exclude is not None and k in exclude)):
+                    continue
+                if exclude_unset and x.cls.is_pydantic and k not in x.fields_set:
+                    continue
+                if exclude_none and y is None:
+                    continue
+                out[k] = self._dump(y, exclude_unset=exclude_unset, exclude_none=exclude_none)
+            return out
         if isinstance(x, list):
-            return [self._dump(y) for y in x]
+            return [self._dump(y, exclude_unset=exclude_unset, exclude_none=exclude_none) for y in x]
         return x
 
     def arr_attr(self, a: AArr, name, node):
@@ -1565,6 +1589,8 @@ class Interp:
             return
         if isinstance(o, Obj):
             o.f[name] = val
+            if not name.startswith("_"):
+                o.fields_set.add(name)
             self.on_attr_store(o, name, val, node)
         else:
             raise AnalysisAbort(f"attribute store on {self.tname(o)} (line {getattr(node, 'lineno', '?')})")
